@@ -758,7 +758,7 @@ class Text(JupyterMixin):
         """
         self.truncate(width)
         excess_space = width - cell_len(self.plain)
-        if excess_space:
+        if excess_space > 0:
             if align == "left":
                 self.pad_right(excess_space, character)
             elif align == "center":
